@@ -152,6 +152,10 @@ def run_verus_unit(uname, workdir, prop=None, tier='quick'):
                     clause_line = s['line_start']
         elif kind.startswith('inv') or kind == 'assert':
             clause_line = line
+            # a loop `ensures` / invariant failing at a `break`: the primary span is the exit, the clause is the labelled secondary span
+            for s in d.get('spans', []):
+                if s.get('label') and 'failed this invariant' in s['label'] and not s.get('is_primary'):
+                    clause_line = s['line_start']
         if clause_line:
             # labels sit at the end of the clause's (last) line
             for l in range(clause_line, min(clause_line + (1 if kind == 'assert' else 12), len(ulines) + 1)):
